@@ -67,7 +67,7 @@ struct TableEncoder {
 impl Encode for TableEncoder {
     fn encode(&self, w: &mut dyn EncWrite, record: &log::Record) -> anyhow::Result<()> {
         let id: usize = record.args().to_string().parse()?;
-        w.write_all(&self.table[id])?;
+        vh::util::write_varied(w, &self.table[id], id)?;
         Ok(())
     }
 }
